@@ -1969,3 +1969,93 @@ def inversion_wtilde_assembly_buffers(mask, seed, use_w_tilde, positive_only, me
     import autoarray as aa
     _quiet()
     return _inv_purity_body(aa, mask, seed, use_w_tilde, positive_only, meshes, regs, slots, warm, via_mesh_api, rotate, funcs)
+
+
+# =============================================================================================== dataset/preprocess helpers
+
+_PRE_ARRAY_PARAMS = ("array", "array_eps", "array_counts", "array_adus", "data_eps", "data", "weight_map", "inverse_noise_map",
+                     "exposure_time_map", "background_noise_map", "background_variances", "image", "noise_map")
+
+
+def _gen_preprocess(rng, tier):
+    import inspect
+    from autoarray.dataset import preprocess as pp
+    names = sorted(n for n, f in vars(pp).items() if inspect.isfunction(f) and f.__module__ == pp.__name__ and not n.startswith("_"))
+    for rep in range(gens.budget(tier, 12, 120)):
+        for name in names:
+            yield {"name": name, "seed": rng.randrange(10 ** 6), "as_view": bool(rep % 2), "noise_seed": [1, 0, 7, 123456][rep % 4]}
+
+
+@bounded("C11", "preprocess-helpers-pure-and-repeatable", gen=_gen_preprocess, nontrivial=lambda **k: True)
+def preprocess_helpers_pure(name, seed, as_view, noise_seed):
+    """C11: 'No query ... modifies the arrays ... passed to it ... repeating a computation with equal inputs gives identical
+    results, including simulated datasets with a fixed noise seed' -- every public helper of autoarray.dataset.preprocess that
+    takes array arguments (found by introspection, called with bare numpy arrays -- or views of larger arrays -- filling every
+    parameter whose name marks an array; exposure time / gain / sigma / limits get fixed scalars, `seed` a fixed seed): the
+    bytes of every array argument (and of the parent array of a view) are unchanged, and a second call with equal inputs gives
+    the identical result; helpers whose call fails with these generic arguments are skipped; 12 (120) rounds over all helpers."""
+    import inspect
+    from autoarray.dataset import preprocess as pp
+    _quiet()
+    fn = getattr(pp, name)
+    r = np.random.default_rng(seed)
+    sig = inspect.signature(fn)
+    shape = (4, 5)
+
+    def make_args():
+        rr = np.random.default_rng(seed)
+        args, parents = {}, {}
+        for pn, prm in sig.parameters.items():
+            if pn in _PRE_ARRAY_PARAMS:
+                base = rr.uniform(0.5, 3.0, size=(shape[0] + 2, shape[1] + 2))
+                if as_view:
+                    parents[pn] = base
+                    args[pn] = base[1:-1, 1:-1]
+                else:
+                    args[pn] = np.ascontiguousarray(base[1:-1, 1:-1])
+            elif pn == "seed":
+                args[pn] = noise_seed
+            elif pn in ("exposure_time", "gain", "sigma", "upper_limit", "signal_to_noise_limit"):
+                args[pn] = 2.5
+            elif pn == "no_edges":
+                args[pn] = 1
+            elif pn == "new_shape":
+                args[pn] = (6, 7)
+            elif pn == "shape":
+                args[pn] = shape
+            elif prm.default is not inspect.Parameter.empty:
+                continue
+            else:
+                return None, None
+        return args, parents
+
+    args, parents = make_args()
+    if args is None or not any(isinstance(v, np.ndarray) for v in args.values()):
+        return None
+    snap = {k: v.copy() for k, v in args.items() if isinstance(v, np.ndarray)}
+    psnap = {k: v.copy() for k, v in parents.items()}
+    saved = np.random.get_state()
+    try:
+        try:
+            out1 = fn(**args)
+        except Exception:
+            return None                                   # not callable with generic arguments: not this check's business
+        for k, v in snap.items():
+            if not np.array_equal(args[k], v):
+                return "%s(...) changed its argument `%s` (a bare ndarray%s) in place" % (name, k, ", a view of the caller's larger array" if as_view else "")
+        for k, v in psnap.items():
+            if not np.array_equal(parents[k], v):
+                return "%s(...) wrote through the view passed as `%s` into the caller's parent array" % (name, k)
+        if "seed" in sig.parameters or not any(w in name for w in ("random", "noise_added", "poisson_noise", "gaussian_noise")):
+            np.random.seed(987)
+            np.random.normal(size=5)
+            args2, _ = make_args()
+            out2 = fn(**args2)
+            a1, a2 = np.asarray(out1, dtype=float) if not isinstance(out1, (list, tuple)) else None, None
+            if a1 is not None:
+                a2 = np.asarray(out2, dtype=float)
+                if a1.shape != a2.shape or not np.array_equal(a1, a2, equal_nan=True):
+                    return "%s(...) called twice with equal inputs%s gives different results" % (name, " and seed=%r" % noise_seed if "seed" in sig.parameters else "")
+    finally:
+        np.random.set_state(saved)
+    return None
